@@ -271,37 +271,47 @@ CONSTS = (
 )
 N_WSTR_CONSTS = 10  # the first ten are the types with string rendering
 
-# (label, type, value syntax with {x}, restriction on x, relativity rule of a path)
+# (label, type, value syntax with {x}, references in order of appearance: (who, restriction) with who = 'x' (the previous
+#  symbol of the chain) or the name of a builtin, relativity rule of a path)
+def _x(restriction):
+    return (('x', restriction),)
+
+
 LINKS = (
-    ('string', 'string', 'p@[{x}]@q', ANY, None),
-    ('list', 'list', 'a @[{x}]@', ANY, None),
-    ('path-prefix', 'path', '@[{x}]@/g', PATHSTR(ALL_REL), ('of', '{x}', 'cwd')),
-    ('path-rel', 'path', '-rel {x} g', PATH(ALL_REL), ('of', '{x}', None)),
-    ('path-suffix', 'path', '-rel-tmp @[{x}]@', STR, 'tmp'),
-    ('path-suffix-home', 'path', '-rel-home d/@[{x}]@', STR, 'hds-case'),
-    ('list-quoted', 'list', '"@[{x}]@" b', ANY, None),
-    ('path-whole', 'path', '@[{x}]@', PATHSTR(ALL_REL), ('of', '{x}', 'cwd')),
+    ('string', 'string', 'p@[{x}]@q', _x(ANY), None),
+    ('list', 'list', 'a @[{x}]@', _x(ANY), None),
+    ('path-prefix', 'path', '@[{x}]@/g', _x(PATHSTR(ALL_REL)), ('of', '{x}', 'cwd')),
+    ('path-rel', 'path', '-rel {x} g', _x(PATH(ALL_REL)), ('of', '{x}', None)),
+    ('path-suffix', 'path', '-rel-tmp @[{x}]@', _x(STR), 'tmp'),
+    ('string-TAB-x', 'string', '@[TAB]@@[{x}]@', (('TAB', ANY), ('x', ANY)), None),
+    ('string-x-TAB', 'string', '"@[{x}]@ @[TAB]@"', (('x', ANY), ('TAB', ANY)), None),
+    ('list-ACT-x', 'list', '@[EXACTLY_ACT]@ @[{x}]@', (('EXACTLY_ACT', ANY), ('x', ANY)), None),
+    ('path-suffix-home', 'path', '-rel-home d/@[{x}]@', _x(STR), 'hds-case'),
+    ('path-suffix-2', 'path', '-rel-act @[NEW_LINE]@@[{x}]@', (('NEW_LINE', STR), ('x', STR)), 'act'),
+    ('list-quoted', 'list', '"@[{x}]@" b', _x(ANY), None),
+    ('path-whole', 'path', '@[{x}]@', _x(PATHSTR(ALL_REL)), ('of', '{x}', 'cwd')),
     # -- types without string rendering
-    ('integer-matcher-ref', 'integer-matcher', '{x}', TYPE('integer-matcher'), None),
-    ('integer-matcher-operand', 'integer-matcher', '== @[{x}]@', STR, None),
-    ('line-matcher-ref', 'line-matcher', '{x}', TYPE('line-matcher'), None),
-    ('line-matcher-regex', 'line-matcher', 'contents matches @[{x}]@', ANY, None),
-    ('line-matcher-negation', 'line-matcher', '! {x}', TYPE('line-matcher'), None),
-    ('file-matcher-ref', 'file-matcher', '{x}', TYPE('file-matcher'), None),
-    ('files-matcher-ref', 'files-matcher', '{x}', TYPE('files-matcher'), None),
-    ('files-condition-ref', 'files-condition', '{x}', TYPE('files-condition'), None),
-    ('files-condition-name', 'files-condition', '{{ @[{x}]@ }}', STR, None),
-    ('files-source-ref', 'files-source', '{x}', TYPE('files-source'), None),
-    ('text-source-ref', 'text-source', '@[{x}]@', TEXT, None),
-    ('text-source-string', 'text-source', '"@[{x}]@"', ANY, None),
-    ('text-matcher-ref', 'text-matcher', '{x}', TYPE('text-matcher'), None),
-    ('text-transformer-ref', 'text-transformer', '{x}', TYPE('text-transformer'), None),
-    ('text-transformer-filter', 'text-transformer', 'filter {x}', TYPE('line-matcher'), None),
-    ('program-ref', 'program', '@ {x}', TYPE('program'), None),
-    ('program-arg', 'program', '% echo @[{x}]@', ANY, None),
-    ('program-name', 'program', '% @[{x}]@', STR, None),
+    ('integer-matcher-ref', 'integer-matcher', '{x}', _x(TYPE('integer-matcher')), None),
+    ('integer-matcher-operand', 'integer-matcher', '== @[{x}]@', _x(STR), None),
+    ('line-matcher-ref', 'line-matcher', '{x}', _x(TYPE('line-matcher')), None),
+    ('line-matcher-regex', 'line-matcher', 'contents matches @[{x}]@', _x(ANY), None),
+    ('line-matcher-negation', 'line-matcher', '! {x}', _x(TYPE('line-matcher')), None),
+    ('file-matcher-ref', 'file-matcher', '{x}', _x(TYPE('file-matcher')), None),
+    ('files-matcher-ref', 'files-matcher', '{x}', _x(TYPE('files-matcher')), None),
+    ('files-condition-ref', 'files-condition', '{x}', _x(TYPE('files-condition')), None),
+    ('files-condition-name', 'files-condition', '{{ @[{x}]@ }}', _x(STR), None),
+    ('files-source-ref', 'files-source', '{x}', _x(TYPE('files-source')), None),
+    ('text-source-ref', 'text-source', '@[{x}]@', _x(TEXT), None),
+    ('text-source-string', 'text-source', '"@[{x}]@"', _x(ANY), None),
+    ('text-matcher-ref', 'text-matcher', '{x}', _x(TYPE('text-matcher')), None),
+    ('text-transformer-ref', 'text-transformer', '{x}', _x(TYPE('text-transformer')), None),
+    ('text-transformer-filter', 'text-transformer', 'filter {x}', _x(TYPE('line-matcher')), None),
+    ('program-ref', 'program', '@ {x}', _x(TYPE('program')), None),
+    ('program-arg', 'program', '% echo @[{x}]@', _x(ANY), None),
+    ('program-name', 'program', '% @[{x}]@', _x(STR), None),
+    ('program-name-and-arg', 'program', '% @[OS_PATH_SEP]@ @[{x}]@', (('OS_PATH_SEP', STR), ('x', ANY)), None),
 )
-N_WSTR_LINKS = 6
+N_WSTR_LINKS = 12
 
 # (label, phase, line with {x}, restriction on x)
 CTXS = (
@@ -354,14 +364,15 @@ def chain_program(const, links, ctx, model_cls=Model):
         statements.append(('setup', 'def %s X0 = %s' % (ctype, cval)))
         ok = m.define('X0', Sym(ctype, (), rel=crel), [])
         defs['X0'] = (ctype, None)
-    for j, (llabel, ltype, lval, lrestr, lrel) in enumerate(links):
+    for j, (llabel, ltype, lval, lrefs, lrel) in enumerate(links):
         name = 'X%d' % (j + 1)
         statements.append(('setup', 'def %s %s = %s' % (ltype, name, lval.format(x=prev))))
         if ok:
             rel = lrel
             if isinstance(lrel, tuple):
                 rel = ('of', prev, lrel[2])
-            ok = m.define(name, Sym(ltype, (prev,), rel=rel), [(prev, lrestr)])
+            refs = [((prev if who == 'x' else who), restr) for who, restr in lrefs]
+            ok = m.define(name, Sym(ltype, [n for n, _ in refs], rel=rel), refs)
             defs[name] = (ltype, None)
         prev = name
     xlabel, xphase, xline, xrestr = ctx
@@ -577,6 +588,8 @@ K3_PROGRAMS = {
     'list:L-quoted-c': (('list', 'R', [_st(True, ('r', 'L')), _st(False, ('c', 'c'))]),),
     'list:xS-Ty': (('list', 'R', [_st(False, ('c', 'x'), ('r', 'S')), _st(False, ('r', 'T'), ('c', 'y'))]),),
     'list:xL': (('list', 'R', [_st(False, ('c', 'x'), ('r', 'L'))]),),
+    'string:builtins': (('string', 'R', _st(True, ('r', 'TAB'), ('c', '|'), ('r', 'NEW_LINE'), ('c', '|'), ('r', 'OS_LINE_SEP'),
+                                            ('c', '|'), ('r', 'OS_PATH_SEP'), ('c', '|'), ('r', 'S'))),),
     'chain:string-string': (('string', 'R1', _st(False, ('c', 'a'), ('r', 'S'))),
                             ('string', 'R', _st(False, ('r', 'R1'), ('r', 'T'), ('r', 'R1')))),
     'chain:list-string': (('list', 'R1', [_st(False, ('r', 'S')), _st(False, ('r', 'L')), _st(False, ('c', 'x'))]),
@@ -664,7 +677,9 @@ def k3_substitution(s: str, t: str, l0: str, l1: str, n: int) -> bool:
     predefined.put('S', SymbolContainer(string_sdvs.str_constant(s), ValueType.STRING, None))
     predefined.put('T', SymbolContainer(string_sdvs.str_constant(t), ValueType.STRING, None))
     predefined.put('L', SymbolContainer(list_sdvs.from_str_constants(elements), ValueType.LIST, None))
-    statements, expected = k3_program(prog, {'S': s, 'T': t, 'L': elements})
+    env = {name: v for name, (_t, _rel, v) in lib.BUILTINS.items() if v is not None}
+    env.update({'S': s, 'T': t, 'L': elements})
+    statements, expected = k3_program(prog, env)
     res = lib.validate(statements, predefined)
     if res[0] != 'OK':
         return False
@@ -687,13 +702,16 @@ def k3_substitution(s: str, t: str, l0: str, l1: str, n: int) -> bool:
     return ob.post(ok)
 
 
+_K3_DUMMY_ENV = dict({n: '' for n in lib.BUILTINS}, S='', T='', L=[])
+
+
 def _k3_used(prog) -> str:
     used = set()
     defined = set()
     for ty, name, tpl in prog:
         for t in ([tpl] if ty == 'string' else tpl):
             for p in t[1]:
-                if p[0] == 'r' and p[1] not in defined:
+                if p[0] == 'r' and p[1] not in defined and p[1] in 'STL':
                     used.add(p[1])
         defined.add(name)
     return ''.join(sorted(used))
@@ -701,25 +719,60 @@ def _k3_used(prog) -> str:
 
 # ---------------------------------------------------------------------------- K3:text
 
-K3T_ALPHABET = '@[]Sa_ '
+def _strings_over(alphabet: str, maxlen: int) -> List[str]:
+    out = []
+    for n in range(maxlen + 1):
+        out += [''.join(t) for t in itertools.product(alphabet, repeat=n)]
+    return out
 
 
-def _pre_k3t(p: str, q: str, v: str) -> bool:
+_K3T_CAT = {}
+
+
+def _k3t_cat(case):
+    key = (case['palpha'], case['plen'], case['qalpha'], case['qlen'])
+    if key not in _K3T_CAT:
+        _K3T_CAT[key] = (_strings_over(case['palpha'], case['plen']), _strings_over(case['qalpha'], case['qlen']))
+    return _K3T_CAT[key]
+
+
+def _pre_k3t(pi: int, qi: int, v: str) -> bool:
     case = ob.case()
-    if len(p) > case['plen'] or len(q) > case['qlen'] or len(v) > case['vlen']:
-        return False
-    for ch in p:
-        if ch not in K3T_ALPHABET:
-            return False
-    for ch in q:
-        if ch not in K3T_ALPHABET:
-            return False
-    return True
+    ps, qs = _k3t_cat(case)
+    return 0 <= pi < len(ps) and 0 <= qi < len(qs) and len(v) <= case['vlen']
 
 
-def k3_text(p: str, q: str, v: str) -> bool:
+def _ref_split_seeded_error(s: str):
+    """ref_split with a seeded error: after an incomplete `@[` the reading resumes two characters late."""
+    out = []
+    lit = ''
+    i = 0
+    n = len(s)
+    while i < n:
+        if s[i:i + 2] == '@[':
+            j = i + 2
+            while j < n and (s[j].isalnum() or s[j] == '_'):
+                j += 1
+            if j > i + 2 and s[j:j + 2] == ']@':
+                if lit != '':
+                    out.append((False, lit))
+                    lit = ''
+                out.append((True, s[i + 2:j]))
+                i = j + 2
+                continue
+            lit = lit + s[i:j + 2]
+            i = j + 2
+            continue
+        lit = lit + s[i]
+        i += 1
+    if lit != '':
+        out.append((False, lit))
+    return out
+
+
+def k3_text(pi: int, qi: int, v: str) -> bool:
     """
-    pre: _pre_k3t(p, q, v)
+    pre: _pre_k3t(pi, qi, v)
     post: _
     """
     from exactly_lib.execution.impl import symbol_validation
@@ -729,13 +782,14 @@ def k3_text(p: str, q: str, v: str) -> bool:
     from exactly_lib.type_val_deps.types.string_ import string_sdvs
     from exactly_lib.util.parse.token import Token, TokenType
     case = ob.case()
-    t = p + case['mid'] + q
+    ps, qs = _k3t_cat(case)
+    t = ob.pick(ps, pi) + case['mid'] + ob.pick(qs, qi)
     # the token the tokenizer delivers for the soft-quoted argument "t" (t holds no quote character)
     sdv = parse_string.parse_string_sdv_from_token(Token(TokenType.QUOTED, t, '"' + t + '"'))
     table = lib.parsing()['builtins']()
     table.put('S', SymbolContainer(string_sdvs.str_constant(v), ValueType.STRING, None))
     failure = symbol_validation.validate_symbol_usages(sdv.references, table)
-    frs = lib.ref_split(t)
+    frs = _ref_split_seeded_error(t) if case.get('oracle_bug') else lib.ref_split(t)
     want = ''
     undefined = False
     for is_sym, x in frs:
@@ -744,9 +798,7 @@ def k3_text(p: str, q: str, v: str) -> bool:
         elif x == 'S':
             want = want + v
         else:
-            undefined = True  # no other name over the alphabet is defined (the builtins are spelled in capitals T, A, B ...)
-    if case.get('oracle_bug'):
-        undefined = False
+            undefined = True  # no other name over the alphabets is defined
     if undefined:
         return ob.post(failure is not None and failure.status.name == 'VALIDATION_ERROR')
     if failure is not None:
@@ -762,14 +814,18 @@ K3C_L = (("x @[S]@ 'y z'", lambda sv: ['x', sv, 'y z']), ('', lambda sv: []), ('
 # (syntax, root, suffix as a function of the value of S)
 K3C_P = (('-rel-act @[S]@/f', 'act', lambda sv: sv + '/f'), ('-rel-home h', 'home', lambda sv: 'h'),
          ('-rel-tmp @[S]@', 'tmp', lambda sv: sv), ('@[EXACTLY_RESULT]@/r', 'result', lambda sv: 'r'),
-         ('-rel-cd c/d', 'cwd', lambda sv: 'c/d'))
+         ('-rel-cd c/d', 'cwd', lambda sv: 'c/d'),
+         # the builtin directory symbols
+         ('@[EXACTLY_ACT]@/a', 'act', lambda sv: 'a'), ('@[EXACTLY_TMP]@/@[S]@', 'tmp', lambda sv: sv),
+         ('@[EXACTLY_HOME]@/h', 'home', lambda sv: 'h'), ('-rel EXACTLY_ACT_HOME h', 'home', lambda sv: 'h'))
 K3C_PROBE = (('act', '% echo '), ('setup', '% echo '), ('cleanup', 'run % echo '), ('assert', 'run % echo '))
 K3C_ARGS = '@[S]@ @[L]@ "@[L]@" @[P]@ "@[P]@/x" @[T]@ pre@[S]@post @[P2]@'
 
 
 def _pre_k3c(si: int, li: int, pi: int, qi: int) -> bool:
     case = ob.case()
-    return 0 <= si < len(K3C_S) and 0 <= li < len(K3C_L) and 0 <= pi < len(K3C_P) and qi == case['only']
+    lo, hi = case['paths']
+    return 0 <= si < len(K3C_S) and 0 <= li < case['lists'] and lo <= pi < hi and qi == case['only']
 
 
 def k3_cli(si: int, li: int, pi: int, qi: int) -> bool:
@@ -909,6 +965,8 @@ def obligations(tier: str) -> List[Ob]:
         x2 = [xl[x] for x in ('argument', 'integer', 'file-dst', 'dir-rel', 'copy-src', 'text')]
         for c in c2:
             obs.append(types_ob('K1:types:chain2:%s' % CONSTS[c][0], 2, [c], l2, x2, 900))
+        for i, ls in enumerate(chunks(list(range(N_WSTR_LINKS)), 6)):
+            obs.append(types_ob('K1:types:chain1:%d' % i, 1, c2, ls, list(range(N_WSTR_CTXS)), 900))
     else:
         for x in all_x:
             obs.append(types_ob('K1:types:direct+1:%s' % CTXS[x][0], 1, all_c, all_l, [x], 1800))
@@ -916,12 +974,12 @@ def obligations(tier: str) -> List[Ob]:
             obs.append(types_ob('K1:types:def-of-def-of-def:%s' % CONSTS[c][0], 2, [c], all_l, 'match', 1800))
         c2 = list(range(N_WSTR_CONSTS)) + [cl['builtin-TAB'], cl['builtin-EXACTLY_HOME'], cl['builtin-EXACTLY_RESULT'],
                                            cl['builtin-EXACTLY_ACT']]
-        l2 = list(range(N_WSTR_LINKS + 2))
+        l2 = list(range(N_WSTR_LINKS))
         x2 = list(range(N_WSTR_CTXS))
         for c in c2:
             obs.append(types_ob('K1:types:chain2:%s' % CONSTS[c][0], 2, [c], l2, x2, 1800))
         c3 = [cl[x] for x in ('string', 'list', 'path-act', 'path-result', 'path-home')]
-        l3 = [ll[x] for x in ('string', 'list', 'path-prefix', 'path-rel', 'path-suffix')]
+        l3 = [ll[x] for x in ('string', 'list', 'path-prefix', 'path-rel', 'path-suffix', 'string-TAB-x')]
         x3 = [xl[x] for x in ('argument', 'integer', 'file-dst', 'dir-rel', 'copy-src', 'text')]
         for c in c3:
             obs.append(types_ob('K1:types:chain3:%s' % CONSTS[c][0], 3, [c], l3, x3, 2400))
@@ -950,7 +1008,7 @@ def obligations(tier: str) -> List[Ob]:
         obs.append(Ob(name='K3:%s' % name, fn='k3_substitution', case=dict(program=name, maxlen=maxlen, used=used),
                       kernel='K3',
                       bound='program `%s` with %s: every string value of <= %d characters (any characters), L of 0..2 elements' % (
-                          '; '.join(l for _, l in k3_program(prog, {'S': '', 'T': '', 'L': []})[0]),
+                          '; '.join(l for _, l in k3_program(prog, _K3_DUMMY_ENV)[0]),
                           ', '.join({'S': 'string S', 'T': 'string T', 'L': 'list L'}[u] for u in used), maxlen),
                       timeout=600 if quick else 2400, real=REAL_K3,
                       stubs=('S, T, L are predefined symbols holding constant SDVs with symbolic values',),
@@ -962,19 +1020,21 @@ def obligations(tier: str) -> List[Ob]:
                           'exactly_lib.type_val_deps.types.path.path_sdvs.reference',
                           'exactly_lib.impls.types.path.parse_path._Parser',
                           'exactly_lib.impls.instructions.multi_phase.define_symbol.parser.TheInstructionEmbryo.main')
-    for q in range(1 if quick else len(K3C_PROBE)):
-        obs.append(Ob(name='K3:cli:probe-in-%s' % K3C_PROBE[q][0], fn='k3_cli', case=dict(probes=q + 1, only=q), kernel='K3',
+    k3c = [(0, 3, (0, 5))] if quick else [(q, len(K3C_L), (0, 5)) for q in range(len(K3C_PROBE))] + [(0, 2, (5, len(K3C_P)))]
+    for q, nlists, (plo, phi) in k3c:
+        obs.append(Ob(name='K3:cli:probe-in-%s%s' % (K3C_PROBE[q][0], ':builtin-dirs' if plo else ''), fn='k3_cli',
+                      case=dict(only=q, lists=nlists, paths=(plo, phi)), kernel='K3',
                       selector=True,
                       bound='def string S = one of %s; def list L = one of %s; def path P = one of %s; '
                             'def string T = "p @[L]@ q @[P]@"; def path P2 = @[P]@/sub; probe `%s%s` in phase %s' % (
-                                [x[0] for x in K3C_S], [x[0] for x in K3C_L], [x[0] for x in K3C_P], K3C_PROBE[q][1],
-                                K3C_ARGS, K3C_PROBE[q][0]),
+                                [x[0] for x in K3C_S], [x[0] for x in K3C_L[:nlists]], [x[0] for x in K3C_P[plo:phi]],
+                                K3C_PROBE[q][1], K3C_ARGS, K3C_PROBE[q][0]),
                       timeout=2400, real=real_k3c,
                       stubs=('subprocess module at process_executor / preprocessor: recording stub that starts nothing',
                              'counting sandbox resolver (MainProgram constructor argument)', 'in-memory stdout/stderr'),
                       entry='MainProgram.execute([FILE]); observation: argv handed to subprocess.call',
                       outside=('path values other than the catalogued (C12)',)))
-    obs.append(Ob(name='K3:cli:seeded-oracle-error', fn='k3_cli', case=dict(probes=1, only=0, oracle_bug=True), kernel='K3',
+    obs.append(Ob(name='K3:cli:seeded-oracle-error', fn='k3_cli', case=dict(only=0, lists=1, paths=(0, 2), oracle_bug=True), kernel='K3',
                   selector=True, bound='seeded: the oracle joins list elements by commas', timeout=900, expect=ob.REFUTE))
     real_k3t = ('exactly_lib.symbol.symbol_syntax.split', 'exactly_lib.symbol.symbol_syntax._extract_fragment',
                 'exactly_lib.symbol.symbol_syntax._find_symbol_reference', 'exactly_lib.symbol.symbol_syntax._extract_symbol_name',
@@ -983,18 +1043,23 @@ def obligations(tier: str) -> List[Ob]:
                 'exactly_lib.execution.impl.symbol_validation.validate_symbol_usages',
                 'exactly_lib.type_val_deps.types.string_.string_sdv_impls.SymbolStringFragmentSdv.resolve',
                 'exactly_lib.type_val_deps.types.string_.string_ddv.StringDdv.value_when_no_dir_dependencies')
-    for mid, plen, qlen, vlen in ((('@[S]@', 3, 2, 1), ('@[S]@@[S]@', 2, 1, 1), ('', 4, 0, 0)) if quick else
-                                  (('@[S]@', 4, 2, 2), ('@[S]@@[S]@', 3, 2, 1), ('@[S]@x@[S]@', 3, 2, 1), ('', 6, 0, 0))):
-        obs.append(Ob(name='K3:text:%s:p%dq%d' % (mid or 'free', plen, qlen), fn='k3_text',
-                      case=dict(mid=mid, plen=plen, qlen=qlen, vlen=vlen), kernel='K3',
-                      bound='soft-quoted string P%sQ with every P of <= %d and every Q of <= %d characters over %r, S defined '
-                            'with every value of <= %d characters' % (mid, plen, qlen, K3T_ALPHABET, vlen),
+    for label, mid, palpha, plen, qalpha, qlen, vlen in (
+            (('S', '@[S]@', '@[a]', 3, ']@', 1, 2), ('SS', '@[S]@@[S]@', '@[a', 2, ']@', 1, 2)) if quick else
+            (('S', '@[S]@', '@[a]', 4, ']@a', 2, 3), ('SS', '@[S]@@[S]@', '@[a]', 3, ']@', 2, 2),
+             ('SxS', '@[S]@]@[S]@', '@[a_', 3, ']@', 1, 2))):
+        obs.append(Ob(name='K3:text:%s:p%dq%d' % (label, plen, qlen), fn='k3_text',
+                      case=dict(mid=mid, palpha=palpha, plen=plen, qalpha=qalpha, qlen=qlen, vlen=vlen), kernel='K3',
+                      bound='soft-quoted string P%sQ with every P of <= %d characters over %r and every Q of <= %d characters over '
+                            '%r (selectors), S defined with every value of <= %d characters (symbolic)' % (
+                                mid, plen, palpha, qlen, qalpha, vlen),
                       timeout=1200 if quick else 3000, real=real_k3t,
                       stubs=('the Token object is built by the harness (the tokenizer is C09)',),
                       entry='parse_string.parse_string_sdv_from_token -> validate_symbol_usages -> resolve',
-                      outside=('characters outside the alphabet', 'tokenization and quoting (C09)')))
-    obs.append(Ob(name='K3:text:seeded-oracle-error', fn='k3_text', case=dict(mid='@[S]@', plen=3, qlen=2, vlen=0, oracle_bug=True),
-                  kernel='K3', bound='seeded: the oracle believes every name is defined', timeout=600, expect=ob.REFUTE))
+                      outside=('characters outside the alphabets', 'tokenization and quoting (C09)')))
+    obs.append(Ob(name='K3:text:seeded-oracle-error', fn='k3_text',
+                  case=dict(mid='@[S]@', palpha='@[a', plen=2, qalpha=']', qlen=0, vlen=0, oracle_bug=True),
+                  kernel='K3', bound='seeded: after an incomplete `@[` the oracle resumes reading two characters late',
+                  timeout=600, expect=ob.REFUTE))
     obs.append(Ob(name='K3:seeded-oracle-error', fn='k3_substitution',
                   case=dict(program='list:a-L-b', maxlen=1, used='L', oracle_bug=True), kernel='K3',
                   bound='seeded: the oracle drops the last element', timeout=300, expect=ob.REFUTE))
@@ -1021,7 +1086,7 @@ def selftest(tier: str) -> int:
                             if not (_check_validation(statements, expected) and _check_validation(render(statements), expected)):
                                 raise AssertionError('C08 selftest: order program %r: model expects %r' % (render(statements), expected))
                             n += 2
-    link_sets = [()] + ([(l,) for l in LINKS] if tier == 'thorough' else [(LINKS[0],), (LINKS[3],), (LINKS[10],)])
+    link_sets = [()] + ([(l,) for l in LINKS] if tier == 'thorough' else [(LINKS[0],), (LINKS[3],), (LINKS[5],), (LINKS[14],)])
     for const in CONSTS:
         for links in link_sets:
             for ctx in CTXS:
